@@ -527,9 +527,56 @@ class Spy:
         self.cls.generate = self.orig
 
 
+_SORTED_LISTING = [False]
+
+
+def sorted_listing():
+    """Seam: the order in which a directory lists its entries belongs to the simulator (on this file system it follows
+    creation order, which follows PYTHONHASHSEED through get_protocols()); this engine fixes it to sorted order, so that
+    WHICH file an injected write fault hits is a function of the workload. (detsim is the engine that permutes it.)"""
+    if _SORTED_LISTING[0]:
+        return
+    _SORTED_LISTING[0] = True
+    real_listdir, real_scandir = os.listdir, os.scandir
+
+    def listdir(path="."):
+        return sorted(real_listdir(path))
+
+    class _Scan:
+        def __init__(self, path):
+            it = real_scandir(path)
+            try:
+                self._entries = sorted(it, key=lambda e: e.name)
+            finally:
+                it.close()
+            self._it = iter(self._entries)
+
+        def __iter__(self):
+            return self
+
+        def __next__(self):
+            return next(self._it)
+
+        def __enter__(self):
+            return self
+
+        def __exit__(self, *a):
+            return False
+
+        def close(self):
+            pass
+
+    def scandir(path="."):
+        return _Scan(path)
+
+    os.listdir = listdir
+    os.scandir = scandir
+
+
 def execute(ops, work: Path, tier="quick", probes=None, tr=None, distinct=None):
     """Run one command history. Returns (violations [(class, detail, msg, opindex)], evals)."""
     probes = probes if probes is not None else Counter()
+    sorted_listing()
     sysm = Sys_()
     # the C++ generator stamps the wall clock into its output: the simulator owns that clock
     from .kit.ambient import SimClock, patch_cpp_ambient
